@@ -68,51 +68,94 @@ type c33Fataler interface {
 	Fatalf(format string, args ...any)
 }
 
-func c33LUTSize(tb c33Fataler, maxEndpoints int) int {
+// c33LUTSize: the table size Felix configures for the two Maglev settings, obtained the way the
+// dataplane driver does (config values -> Config.BPFLUTSizeMaglev()).
+func c33LUTSize(tb c33Fataler, maxEndpoints, maxServices int) int {
 	cfg := config.New()
-	_, err := cfg.UpdateFrom(map[string]string{"BPFMaglevMaxEndpointsPerService": strconv.Itoa(maxEndpoints)}, config.ConfigFile)
+	_, err := cfg.UpdateFrom(map[string]string{
+		"BPFMaglevMaxEndpointsPerService": strconv.Itoa(maxEndpoints),
+		"BPFMaglevMaxServices":            strconv.Itoa(maxServices),
+	}, config.ConfigFile)
 	if err != nil {
-		tb.Fatalf("BPFMaglevMaxEndpointsPerService=%d rejected: %v", maxEndpoints, err)
+		tb.Fatalf("BPFMaglevMaxEndpointsPerService=%d BPFMaglevMaxServices=%d rejected: %v", maxEndpoints, maxServices, err)
 	}
-	if cfg.BPFMaglevMaxEndpointsPerService != maxEndpoints {
-		tb.Fatalf("HARNESS-GAP: BPFMaglevMaxEndpointsPerService=%d not accepted by the configuration (got %d); the accepted range changed",
-			maxEndpoints, cfg.BPFMaglevMaxEndpointsPerService)
+	if cfg.BPFMaglevMaxEndpointsPerService != maxEndpoints || cfg.BPFMaglevMaxServices != maxServices {
+		tb.Fatalf("HARNESS-GAP: BPFMaglevMaxEndpointsPerService=%d / BPFMaglevMaxServices=%d not accepted by the configuration (got %d / %d); the accepted ranges changed",
+			maxEndpoints, maxServices, cfg.BPFMaglevMaxEndpointsPerService, cfg.BPFMaglevMaxServices)
 	}
 	return cfg.BPFLUTSizeMaglev()
 }
 
+const c33MaxSetting = 3000 // both Maglev parameters are declared int(1:3000)
+
 func TestVerifC33Sizes(t *testing.T) {
 	ev.Quiet()
 	rec := ev.New("C33", "sizes",
-		"every value 1..3000 of BPFMaglevMaxEndpointsPerService (the parameter's whole accepted range), table size read from Config.BPFLUTSizeMaglev(); non-trivial = always; distinct = distinct setting",
-		"the parameter's accepted range is 1..3000 (checked: 0 and 3001 fall back to the default)")
+		"every pair (BPFMaglevMaxEndpointsPerService, BPFMaglevMaxServices) in 1..3000 x 1..3000 (both Maglev parameters' whole accepted ranges: 9,000,000 pairs), table size read from Config.BPFLUTSizeMaglev(); one recorded case per endpoints value; non-trivial = always; distinct = distinct endpoints value",
+		"both parameters' accepted range is 1..3000 (checked: every value in range is accepted through UpdateFrom, 0 and 3001 are not)",
+		"BPFLUTSizeMaglev() depends on no configuration other than the two BPFMaglev* parameters")
 	defer rec.Write()
-	// The declared range: values just outside must not be accepted (else the enumeration
-	// below would not be the whole domain).
-	for _, out := range []int{0, 3001} {
-		cfg := config.New()
-		_, _ = cfg.UpdateFrom(map[string]string{"BPFMaglevMaxEndpointsPerService": strconv.Itoa(out)}, config.ConfigFile)
-		if cfg.BPFMaglevMaxEndpointsPerService == out {
-			t.Fatalf("HARNESS-GAP: BPFMaglevMaxEndpointsPerService=%d is accepted; the enumerated range 1..3000 is no longer the whole domain", out)
+	// The declared ranges: values just outside must not be accepted (else the enumeration
+	// below would not be the whole domain), every value inside must be.
+	for _, name := range []string{"BPFMaglevMaxEndpointsPerService", "BPFMaglevMaxServices"} {
+		for _, out := range []int{0, c33MaxSetting + 1} {
+			cfg := config.New()
+			_, _ = cfg.UpdateFrom(map[string]string{name: strconv.Itoa(out)}, config.ConfigFile)
+			if cfg.BPFMaglevMaxEndpointsPerService == out || cfg.BPFMaglevMaxServices == out {
+				t.Fatalf("HARNESS-GAP: %s=%d is accepted; the enumerated range 1..3000 is no longer the whole domain", name, out)
+			}
 		}
 	}
+	for v := 1; v <= c33MaxSetting; v++ {
+		// (v, v) through the real parameter parsing: proves every value of both ranges is accepted
+		_ = c33LUTSize(t, v, v)
+	}
+	// The full product, setting the (exported) fields directly — what UpdateFrom leaves there.
+	cfg := config.New()
+	prime := map[int]bool{}
 	sizes := map[int]bool{}
-	for v := 1; v <= 3000; v++ {
-		m := c33LUTSize(t, v)
-		if !c33IsPrime(m) {
-			t.Fatalf("BPFMaglevMaxEndpointsPerService=%d gives Maglev table size %d, which is not prime: backend preference lists would not cover the table", v, m)
+	pairs := 0
+	for v := 1; v <= c33MaxSetting; v++ {
+		cfg.BPFMaglevMaxEndpointsPerService = v
+		perV := map[int]bool{}
+		for sv := 1; sv <= c33MaxSetting; sv++ {
+			cfg.BPFMaglevMaxServices = sv
+			m := cfg.BPFLUTSizeMaglev()
+			p, seen := prime[m]
+			if !seen {
+				p = c33IsPrime(m)
+				prime[m] = p
+			}
+			if !p {
+				t.Fatalf("BPFMaglevMaxEndpointsPerService=%d BPFMaglevMaxServices=%d gives Maglev table size %d, which is not prime: backend preference lists would not cover the table", v, sv, m)
+			}
+			if m < v {
+				t.Fatalf("BPFMaglevMaxEndpointsPerService=%d BPFMaglevMaxServices=%d gives Maglev table size %d < %d: not every backend can get a slot", v, sv, m, v)
+			}
+			perV[m] = true
+			sizes[m] = true
+			pairs++
 		}
-		if m < v {
-			t.Fatalf("BPFMaglevMaxEndpointsPerService=%d gives Maglev table size %d < %d: not every backend can get a slot", v, m, v)
+		cls := "size-independent-of-services"
+		if len(perV) > 1 {
+			cls = "size-varies-with-services"
 		}
-		cls := "size>=5x"
-		if m < 5*v {
-			cls = "size<5x"
+		cls2 := "size>=5x"
+		for m := range perV {
+			if m < 5*v {
+				cls2 = "size<5x"
+			}
 		}
-		sizes[m] = true
-		rec.Case(true, strconv.Itoa(v), func() any { return map[string]int{"maxEndpoints": v, "tableSize": m} }, cls)
+		rec.Case(true, strconv.Itoa(v), func() any {
+			var ms []int
+			for m := range perV {
+				ms = append(ms, m)
+			}
+			sort.Ints(ms)
+			return map[string]any{"maxEndpoints": v, "tableSizesOverAllServiceSettings": ms}
+		}, cls, cls2)
 	}
-	rec.Extra("settings_enumerated_exhaustively", 3000)
+	rec.Extra("setting_pairs_enumerated_exhaustively", pairs)
 	rec.Extra("distinct_table_sizes", len(sizes))
 }
 
@@ -193,7 +236,7 @@ func c33GenIP(t *rapid.T, v6 bool, label string) string {
 func TestVerifC33Tables(t *testing.T) {
 	ev.Quiet()
 	rec := ev.New("C33", "tables",
-		"backend sets of 1..64 ip:port endpoints (clustered addresses/ports so names differ in one character; v4 or v6), table size = Config.BPFLUTSizeMaglev() for a drawn setting (small settings favoured, so that backends can outnumber slots), two further insertion orders with duplicate adds; non-trivial = >=2 backends and an insertion order that differs from the first; distinct = (table size, backend names)",
+		"backend sets of 1..64 ip:port endpoints (clustered addresses/ports so names differ in one character; v4 or v6), table size = Config.BPFLUTSizeMaglev() for a drawn (max endpoints, max services) pair (small endpoint settings favoured, so that backends can outnumber slots; 1/6 of the cases have both settings large), two further insertion orders with duplicate adds; non-trivial = >=2 backends and an insertion order that differs from the first; distinct = (table size, backend names)",
 		"hash functions are fnv.New32() twice, as the only production caller constructs them",
 		"reference = Maglev Algorithm 1 with FNV-1 offsets/skips (seed bytes 0x00/0x0a prefixed) read little-endian and turns taken in name order")
 	defer rec.Write()
@@ -201,21 +244,32 @@ func TestVerifC33Tables(t *testing.T) {
 
 	rapid.Check(t, func(t *rapid.T) {
 		var setting int
-		switch rapid.IntRange(0, 9).Draw(t, "settingClass") {
+		services := 100 // the default
+		switch rapid.IntRange(0, 11).Draw(t, "settingClass") {
 		case 0, 1, 2, 3:
 			setting = rapid.IntRange(1, 12).Draw(t, "maxEndpoints")
 		case 4, 5, 6, 7:
 			setting = rapid.IntRange(13, 200).Draw(t, "maxEndpoints")
 		case 8:
-			setting = rapid.IntRange(201, 3000).Draw(t, "maxEndpoints")
+			setting = rapid.IntRange(201, c33MaxSetting).Draw(t, "maxEndpoints")
+		case 9:
+			setting = rapid.SampledFrom([]int{1, 2, 100, c33MaxSetting}).Draw(t, "maxEndpoints")
 		default:
-			setting = rapid.SampledFrom([]int{1, 2, 100, 3000}).Draw(t, "maxEndpoints")
+			// both settings large: the biggest tables / biggest total map sizes Felix can configure
+			setting = rapid.IntRange(200, c33MaxSetting).Draw(t, "maxEndpoints")
+			services = rapid.SampledFrom([]int{500, 1000, 1500, 2000, 2500, 2999, c33MaxSetting}).Draw(t, "maxServices")
 		}
-		m := c33LUTSize(t, setting)
+		if rapid.IntRange(0, 3).Draw(t, "otherServices") == 0 {
+			services = rapid.IntRange(1, c33MaxSetting).Draw(t, "maxServices")
+		}
+		m := c33LUTSize(t, setting, services)
+		if !c33IsPrime(m) {
+			t.Fatalf("BPFMaglevMaxEndpointsPerService=%d BPFMaglevMaxServices=%d gives Maglev table size %d, which is not prime", setting, services, m)
+		}
 		v6 := rapid.IntRange(0, 3).Draw(t, "v6") == 0
 		n := rapid.IntRange(1, maxBackends).Draw(t, "nBackends")
 		if rapid.IntRange(0, 2).Draw(t, "fewBackends") == 0 {
-			n = rapid.IntRange(1, 5).Draw(t, "nFew")
+			n = rapid.SampledFrom([]int{1, 2, 3, 4, 5, 7}).Draw(t, "nFew")
 		}
 		byName := map[string]*c33Endpoint{}
 		var eps []*c33Endpoint
@@ -318,8 +372,11 @@ func TestVerifC33Tables(t *testing.T) {
 		if v6 {
 			cl = append(cl, "ipv6")
 		}
+		if setting >= 200 && services >= 500 {
+			cl = append(cl, "both-settings-large")
+		}
 		rec.SizedCase(n >= 2 && differentOrder, fmt.Sprintf("%d|%s", m, strings.Join(sorted, ",")), n*m, func() any {
-			return map[string]any{"setting": setting, "tableSize": m, "backends": names}
+			return map[string]any{"maxEndpoints": setting, "maxServices": services, "tableSize": m, "backends": names}
 		}, cl...)
 	})
 }
